@@ -294,7 +294,9 @@ def sourceField (depth : Nat) (f : Fields) : P (Fields × Bool) := do
   let r ← mapped (genericField (bs "SOURCE") depth)
   let f := { f with species := r.1 }
   match ← attempt (subfieldName (bs "ORGANISM") depth r.2.2 true) with
-  | none => do pop; pure (f, false)
+  -- 66de3a0: `state.Clear()` (was `state.Pop()`): `tryAllParsers` then finds nothing pushed and
+  -- gives the record up on the spot, whatever an earlier parser had left on the stack
+  | none => do clear; pure (f, false)
   | some _ =>
     let name ← line
     let n := (← getS).rest.length
